@@ -92,3 +92,47 @@ Example C09_helpers_nonvacuous :
   fst (nextn Val.binop 100 30 5 (seq_ [1; 2; 3] 1)) = Yield [VInt 1; VInt 2; VInt 3] /\
   fst (len Val.binop 100 30 (seq_ [1; 2; 3] 2)) = Yield 6.
 Proof. split; vm_compute; reflexivity. Qed.
+
+(* ------------------------------------------------------------------------------------------------------------
+   "... so a drained track stays drained while it waits for its last notes to end" and the finite STOCHASTIC
+   classes (model Pat/Drained.v over the machines of Pat/Chance.v; lemmas Pat/DrainedProofs.v).  The generator
+   is arbitrary data (R, r_below, r_unit), never an axiom.  From here on `Stop` is Chance.Stop. *)
+From Isobar Require Import Pat.Chance Pat.Drained Pat.DrainedProofs.
+
+(* ANY stream that has become dead (every later next() raises StopIteration), polled by its track on every tick
+   (Track.tick does not advance next_event_time on StopIteration): no further note is played and nothing is raised,
+   for ever; and if the pending note-offs are all due within k ticks, the track has finished after k + 1 ticks *)
+Theorem C09_drained_track_stays_drained : forall R St step dur_t gate4 (t : trk R St),
+  dead R St step (t_st R St t) (t_gen R St t) ->
+  (forall n, t_played R St (ticks R St step dur_t gate4 n t) = t_played R St t /\
+             t_err R St (ticks R St step dur_t gate4 n t) = t_err R St t) /\
+  (forall k, t_err R St t = false -> t_next R St t <= t_now R St t ->
+             (forall d, In d (t_offs R St t) -> d <= t_now R St t + 4 * Z.of_nat k) ->
+             t_fin R St (ticks R St step dur_t gate4 (S k) t) = true).
+Proof.
+  intros R St step dur_t gate4 t H. split.
+  - intros n. now apply drained_plays_nothing.
+  - intros k. now apply drained_ends.
+Qed.
+Print Assumptions C09_drained_track_stays_drained.
+
+(* PShuffle(values, repeats) in ANY state, whatever the generator returns: once next() has raised StopIteration,
+   every later next() raises StopIteration (position stays at the end, the repeat counter is used up) *)
+Theorem C09_pshuffle_sticky : forall R r_below repeats s g s' g',
+  pshuffle_step R r_below repeats s g = (Stop, s', g') ->
+  forall g'', dead R shuf_state (pshuffle_step R r_below repeats) s' g''.
+Proof. exact pshuffle_sticky. Qed.
+Print Assumptions C09_pshuffle_sticky.
+
+(* PWhite(min, max, length) likewise *)
+Theorem C09_pwhite_sticky : forall R r_unit is_f mn mx len i g i' g',
+  white_step R r_unit is_f mn mx len i g = (Stop, i', g') ->
+  forall g'', dead R Z (white_step R r_unit is_f mn mx len) i' g''.
+Proof. exact pwhite_sticky. Qed.
+Print Assumptions C09_pwhite_sticky.
+
+Example C09_drained_nonvacuous :
+  drained_run 3 4 10 200 = (3, Some 19) /\                       (* 3 notes, 1 beat = 4 ticks each, gate 2.5 *)
+  pshuffle_shape [60; 62; 64] 2 9 = [false; false; false; false; false; false; true; true; true] /\
+  pwhite_shape 2 5 = [false; false; true; true; true].
+Proof. repeat split; vm_compute; reflexivity. Qed.
